@@ -22,7 +22,7 @@ from collections.abc import Coroutine
 from Cryptodome.PublicKey import ECC, RSA
 from ...encoding import FormalName, BinaryStr, SignatureType, Name, parse_data, SignaturePtrs
 from ...app import NDNApp, Validator, ValidationFailure, InterestTimeout, InterestNack
-from .known_key_validator import verify_rsa, verify_hmac, verify_ecdsa, verify_ed25519
+from .known_key_validator import verify_rsa, verify_ecdsa, verify_ed25519
 
 
 class PublicKeyStorage(abc.ABC):
@@ -66,7 +66,9 @@ class CascadeChecker:
     @staticmethod
     def _verify_sig(pub_key_bits, sig_ptrs) -> bool:
         if sig_ptrs.signature_info.signature_type == SignatureType.HMAC_WITH_SHA256:
-            return verify_hmac(pub_key_bits, sig_ptrs)
+            # The key material here comes from a certificate, i.e. it is public.
+            # Using it as an HMAC secret would let anyone forge the signature.
+            return False
         elif sig_ptrs.signature_info.signature_type == SignatureType.SHA256_WITH_RSA:
             pub_key = RSA.import_key(bytes(pub_key_bits))
             return verify_rsa(pub_key, sig_ptrs)
